@@ -387,6 +387,14 @@ def h_h1_to_h2(X, nfields):
     X.check(got == exp, "C06/h1-to-h2/field-list-changed", f"{what}: fields {got} != {exp}")
     X.check([v for n, v in hs if n == b"host"] in ([], [host]), "C06/h1-to-h2/host", what)
     X.check(r["data"] == body, "C06/h1-to-h2/body-changed", what)
+    # translating the message for the next hop must not alter the message mitmproxy holds (and shows / saves / replays):
+    # the flow still carries the Host and the other fields the client sent
+    fl = [dat for nm, dat in d.hooks if nm == "request"]
+    if fl:
+        rec = [(n.lower(), v) for n, v in fl[-1].request.headers.fields]
+        want = [(b"host", host)] + [(n.lower(), v.strip(b" \t")) for n, v in fields]
+        missing = [f for f in want if f not in rec]
+        X.check(not missing, "C06/h1-to-h2/recorded-request-altered", f"{what}: after forwarding, the flow's request lost {missing} (recorded fields {rec})")
     X.reach("forwarded")
     # the h2 answer back to the HTTP/1 client
     rname = X.choose("response", list(H2_RESPONSES))
